@@ -327,10 +327,14 @@ func (s *FromNode) From() *FromNode {
 // tick:property
 func (s *FromNode) Where(lambda *ast.LambdaNode) *FromNode {
 	if s.Lambda != nil {
-		s.Lambda.Expression = &ast.BinaryNode{
-			Operator: ast.TokenAnd,
-			Left:     s.Lambda.Expression,
-			Right:    lambda.Expression,
+		// Build a new lambda, the existing one may be a variable shared with other nodes.
+		s.Lambda = &ast.LambdaNode{
+			Expression: &ast.BinaryNode{
+				Operator: ast.TokenAnd,
+				Left:     s.Lambda.Expression,
+				Right:    lambda.Expression,
+			},
+			Comment: s.Lambda.Comment,
 		}
 	} else {
 		s.Lambda = lambda
